@@ -20,8 +20,66 @@ type FnSig struct {
 
 // Prelude is the concatenation of /verif/spec/*.smt2 with its parsed signatures.
 type Prelude struct {
-	Text string
-	Sigs map[string]*FnSig
+	Text  string
+	Sigs  map[string]*FnSig
+	forms []preludeForm
+}
+
+// preludeForm is one top-level command of the spec files with the symbols it introduces and mentions.
+type preludeForm struct {
+	text  string
+	names []string
+	atoms map[string]bool
+}
+
+func sxAtoms(s *sexpr, out map[string]bool) {
+	if s.list == nil {
+		if s.atom != "" {
+			out[s.atom] = true
+		}
+		return
+	}
+	for _, c := range s.list {
+		sxAtoms(c, out)
+	}
+}
+
+// Slice returns the part of the prelude that the given SMT text depends on (transitively), in file order. Lemmas
+// are emitted over this slice only, so that an edit to an unrelated spec function cannot perturb their proofs.
+func (p *Prelude) Slice(text string) string {
+	need := map[string]bool{}
+	if sx, err := parseSexprs(text); err == nil {
+		for _, s := range sx {
+			sxAtoms(s, need)
+		}
+	}
+	inc := make([]bool, len(p.forms))
+	for changed := true; changed; {
+		changed = false
+		for i, f := range p.forms {
+			if inc[i] {
+				continue
+			}
+			for _, n := range f.names {
+				if need[n] {
+					inc[i] = true
+					changed = true
+					for a := range f.atoms {
+						need[a] = true
+					}
+					break
+				}
+			}
+		}
+	}
+	var sb strings.Builder
+	for i, f := range p.forms {
+		if inc[i] {
+			sb.WriteString(f.text)
+			sb.WriteString("\n")
+		}
+	}
+	return sb.String()
 }
 
 // LoadPrelude reads prelude.smt2 first and then every other *.smt2 in dir, in name order.
@@ -53,6 +111,46 @@ func LoadPrelude(dir string) (*Prelude, error) {
 		return nil, err
 	}
 	for _, s := range sx {
+		if len(s.list) >= 2 {
+			f := preludeForm{text: s.String(), atoms: map[string]bool{}}
+			sxAtoms(s, f.atoms)
+			switch s.list[0].atom {
+			case "define-fun", "define-fun-rec", "declare-fun", "declare-const", "declare-sort":
+				f.names = []string{s.list[1].atom}
+			case "declare-datatypes":
+				// introduces the sort names, constructors and accessors; depends on the field sorts
+				deps := map[string]bool{}
+				if len(s.list) >= 3 {
+					for _, d := range s.list[1].list {
+						if len(d.list) > 0 {
+							f.names = append(f.names, d.list[0].atom)
+						}
+					}
+					for _, dt := range s.list[2].list {
+						for _, c := range dt.list {
+							if c.atom != "" {
+								f.names = append(f.names, c.atom)
+								continue
+							}
+							if len(c.list) == 0 {
+								continue
+							}
+							f.names = append(f.names, c.list[0].atom)
+							for _, a := range c.list[1:] {
+								if len(a.list) == 2 {
+									f.names = append(f.names, a.list[0].atom)
+									sxAtoms(a.list[1], deps)
+								}
+							}
+						}
+					}
+				}
+				f.atoms = deps
+			default:
+				f.names = nil
+			}
+			p.forms = append(p.forms, f)
+		}
 		if len(s.list) < 3 {
 			continue
 		}
